@@ -124,3 +124,11 @@ prop("C08",
                   "the client's handle_event does not modify manager state",
                   "spa-raised events presuppose a spa object; RUNNING_SPA_WATER_CARE_ERROR presupposes a facade; CONNECTION_STARTED presupposes a configured identifier (ReconnectButton needs unique_id)"],
      explanation="_handle_event compared with the lifecycle table for every event in every invariant state (ground enumeration through the real code), delivery-point assertions in the abstract handle_event, ready/teardown ghost bracket, try/finally brackets of locate/connect incl. exceptional exits, reset post-state")
+
+prop("C10",
+     level="proof",
+     budget={"quick": 60, "thorough": 300},
+     assumptions=["Task.cancel() delivers asyncio.CancelledError at the task's current await (asyncio contract, ASSUMED); the proof shows every task coroutine lets it propagate and every abandoned connection closes what it opened",
+                  "effects of datagrams already queued in other tasks at the moment of the reset are not explored",
+                  "the reset path itself (spa.disconnect) is not interrupted"],
+     explanation="typestate ghosts for endpoints and tasks; CancelledError injected at a symbolic await ordinal in discover and in the whole connect handshake followed by the reset path; cancellation propagation of every task coroutine by loop cut")
